@@ -25,8 +25,9 @@ GrpSeq1 == <<"grp1">>
 
 Traces == JsonDeserialize(IOEnv.TRACE_FILE)
 
-VARIABLES tid, l, st, bad, ok
-vars == <<tid, l, st, bad, ok>>
+VARIABLES tid, l, st, bad, ok,
+          mgr      \* per slot: the HistoryManagers of the open contexts, as numbered by the hook observer
+vars == <<tid, l, st, bad, ok, mgr>>
 
 \* ------------------------------------------------------------ observed slot -> content
 PosIn(seq, x) == IF \E k \in 1..Len(seq) : seq[k] = x THEN (CHOOSE k \in 1..Len(seq) : seq[k] = x) - 1 ELSE Missing
@@ -44,7 +45,7 @@ ObsContent(o, Cexp) ==
    objc |-> [r \in RxU |-> o.objc[r]], dir |-> o.dir, sbo |-> [r \in RxU |-> o.sbo[r]],
    func |-> [g \in GeneU |-> o.func[g]],
    member |-> [g \in GrpU |-> SeqSet(o.member[g]) \cap AllIds],
-   ann |-> [x \in AllIds |-> o.ann[x]],
+   ann |-> [x \in AllIds |-> o.ann[x]], note |-> [x \in AllIds |-> o.note[x]],
    xcols |-> SeqSet(o.lp.xcols), xrows |-> SeqSet(o.lp.xrows), solver |-> o.solver]
 RulesInSync(o, C) == o.present => \A r \in RxU : (r \in SeqSet(o.rxns) => RuleMatches(C.rule[r], o, r))
 
@@ -68,6 +69,7 @@ SlotDiff(o, C, depth, helper) ==
      \cup (IF \E g \in GeneU : o.func[g] # C.func[g] THEN {"func"} ELSE {})
      \cup (IF \E g \in GrpU : SeqSet(o.member[g]) # C.member[g] THEN {"member"} ELSE {})
      \cup (IF \E x \in AllIds : o.ann[x] # C.ann[x] THEN {"ann"} ELSE {})
+     \cup (IF \E x \in AllIds : o.note[x] # C.note[x] THEN {"note"} ELSE {})
      \cup (IF helper = 0 /\ SeqSet(o.lp.xcols) # C.xcols THEN {"xcols"} ELSE {})
      \cup (IF helper = 0 /\ SeqSet(o.lp.xrows) # C.xrows THEN {"xrows"} ELSE {})
      \cup (IF o.solver # C.solver THEN {"solver"} ELSE {})
@@ -135,10 +137,40 @@ Tags(op, S) ==
   (IF depth >= 1 THEN {"in_context"} ELSE {})
   \cup (IF depth >= 2 THEN {"nested_depth_ge2"} ELSE {})
   \cup (IF S.helper[s] # 0 THEN {"helper_active"} ELSE {})
+  \cup (IF S.sw[s] THEN {"solver_switched_in_context"} ELSE {})
   \cup (IF IsModel(S.m[s]) /\ S.m[s].solver = "glpk_exact" THEN {"solver_exact"} ELSE {})
   \cup (IF IsModel(S.m[s]) /\ (\E r \in S.m[s].rxns : S.m[s].lb[r] = -INF \/ S.m[s].ub[r] = INF) THEN {"infinite_bound"} ELSE {})
   \cup (IF IsModel(S.m[s]) /\ S.m[s].dir = "min" THEN {"dir_min"} ELSE {})
-  \cup (IF IsModel(S.m[s]) /\ (\E r \in RxU : r \notin S.m[s].rxns /\ FALSE) THEN {} ELSE {})
+  \cup (IF IsModel(S.m[s]) /\ (\A r \in RxU : S.m[s].objc[r] = 0) THEN {"empty_objective"} ELSE {})
+  \cup (IF IsModel(S.m[s]) /\ (\E r \in S.m[s].rxns : MetsOfRxn(S.m[s], r) = {}) THEN {"empty_reaction"} ELSE {})
+
+\* ------------------------------------------------------------ (3) the undo-log mechanism (hook events, C03)
+\* hooks = the events cobra.util._verif reported during this call, in order:
+\*   ctx.enter(m, depth) ctx.exit(m, depth after pop) ctx.register(m, size) ctx.reset.begin(m, size)
+\*   ctx.undo(m, size) ctx.reset.end(m, size)
+Count(hs, k, name) == Cardinality({j \in 1..(k - 1) : hs[j].e = name})
+InReset(hs, k) == Count(hs, k, "ctx.reset.begin") > Count(hs, k, "ctx.reset.end")
+EditActions == ContentActions \ {"Analyze", "RoundTrip", "GetMedium", "Init"}
+HookFails(op, hs, stackPre) ==
+  LET n == Len(hs) depth == Len(stackPre) IN
+  \* nothing is registered while a context is being reset (UndoLog.tla: Hide)
+  (IF \E k \in 1..n : hs[k].e = "ctx.register" /\ InReset(hs, k) THEN {"NoRecordingWhileResetting"} ELSE {})
+  \* a reset runs exactly the entries that were registered, last in first out, down to empty
+  \cup (IF \E k \in 1..n : hs[k].e = "ctx.reset.begin" /\
+              ~(\E e \in (k + 1)..n : /\ hs[e].e = "ctx.reset.end" /\ hs[e].m = hs[k].m /\ hs[e].n = 0
+                                       /\ Cardinality({j \in (k + 1)..(e - 1) : hs[j].e = "ctx.undo" /\ hs[j].m = hs[k].m}) = hs[k].n)
+        THEN {"ResetRunsAllEntries"} ELSE {})
+  \cup (IF op.a = "Enter" /\ ~(n = 1 /\ hs[1].e = "ctx.enter" /\ hs[1].n = depth + 1) THEN {"EnterPushesOne"} ELSE {})
+  \cup (IF op.a = "Exit" /\ depth > 0 /\ ~(n >= 3 /\ hs[1].e = "ctx.exit" /\ hs[1].m = stackPre[depth] /\ hs[1].n = depth - 1
+                                            /\ hs[2].e = "ctx.reset.begin" /\ hs[2].m = stackPre[depth])
+        THEN {"ExitResetsTop"} ELSE {})
+  \* an edit made inside a context is recorded in the TOP context, and nothing is recorded without one
+  \cup (IF op.a \in EditActions /\ (\E k \in 1..n : hs[k].e = "ctx.register" /\ (depth = 0 \/ hs[k].m # stackPre[depth]))
+        THEN {"RecordsIntoTop"} ELSE {})
+MgrNext(op, hs, stackPre, raised) ==
+  IF op.a = "Enter" /\ Len(hs) >= 1 /\ hs[1].e = "ctx.enter" THEN Append(stackPre, hs[1].m)
+  ELSE IF op.a = "Exit" /\ Len(stackPre) > 0 /\ Len(hs) >= 1 /\ hs[1].e = "ctx.exit" THEN SubSeq(stackPre, 1, Len(stackPre) - 1)
+  ELSE stackPre
 
 \* ------------------------------------------------------------ the trace
 Init ==
@@ -147,6 +179,7 @@ Init ==
   /\ ok = TRUE
   /\ bad = {}
   /\ st = InitState
+  /\ mgr = [s \in Slots |-> <<>>]
 
 ExpRet(op, S, res) ==
   IF op.a = "GetMedium" /\ IsModel(S.m[op.s]) THEN [ids |-> {}, n |-> 0, med |-> MediumOf(S.m[op.s])]
@@ -174,13 +207,16 @@ Next ==
                        \cup (IF res.raises = "none" /\ RetDiffers(ev, ExpRet(op, st, res)) THEN {"ret"} ELSE {})
                   ELSE IF unexpectedRaise THEN {"raises"} ELSE {}
          nowBad == UNION {SlotTag(s, InvNames(ev.obs[s], E.helper[s])) : s \in Slots}
-         newBad == nowBad \ bad
+         os == IF "s" \in DOMAIN op THEN op.s ELSE 1
+         hookBad == IF ev.hooks_on /\ op.a # "Copy" /\ op.a # "NewModel"
+                    THEN SlotTag(os, HookFails(op, ev.hooks, mgr[os])) ELSE {}
+         newBad == (nowBad \ bad) \cup hookBad
          \* the state to continue from: what the implementation really is (trees carried from exp)
          N == [m |-> [s \in Slots |-> ObsContent(ev.obs[s], E.m[s])],
                ctx |-> [s \in Slots |-> IF ev.obs[s].present /\ ev.obs[s].ctx = Len(E.ctx[s]) THEN E.ctx[s]
                                         ELSE IF ev.obs[s].present /\ ev.obs[s].ctx < Len(E.ctx[s])
                                              THEN SubSeq(E.ctx[s], 1, ev.obs[s].ctx) ELSE E.ctx[s]],
-               helper |-> E.helper]
+               helper |-> E.helper, sw |-> E.sw, taint |-> E.taint]
      IN
      /\ (diffs \cup newBad # {}) =>
            PrintT(ToJson([verdict |-> "MISMATCH", tid |-> Traces[tid].tid, l |-> l + 1, action |-> op.a, op |-> op,
@@ -189,6 +225,9 @@ Next ==
                           inexact |-> (IF ev.obs[1].present THEN ev.obs[1].inexact ELSE <<>>)
                                        \o (IF ev.obs[2].present THEN ev.obs[2].inexact ELSE <<>>)]))
      /\ bad' = nowBad
+     /\ mgr' = [s \in Slots |-> IF op.a \in {"Copy"} /\ s = op.t THEN <<>>
+                                 ELSE IF op.a = "NewModel" /\ s = os THEN <<>>
+                                 ELSE IF s = os THEN MgrNext(op, ev.hooks, mgr[s], ev.raises) ELSE mgr[s]]
      /\ st' = N
      /\ ok' = \A s \in Slots : (IsModel(N.m[s]) => RulesInSync(ev.obs[s], N.m[s]))
   /\ l' = l + 1
